@@ -145,8 +145,12 @@ NAMES = ["T", "U", "T"]      # pool with a repeated name: different variables ma
 
 import itertools as _it
 
-_NAMECASES = [(nb, ne, names, tw) for nb in range(4) for ne in range(4) if nb + ne >= 1
-              for names in _it.product(range(3), repeat=nb + ne) for tw in (False, True)][_SH::_NSH]
+NAMES5 = ["T", "T", "T_1", "T1", "T_"]       # names a suffix scheme for clashes might itself produce
+_NAMECASES = [(nb, ne, names, tw, NAMES) for nb in range(4) for ne in range(4) if nb + ne >= 1
+              for names in _it.product(range(3), repeat=nb + ne) for tw in (False, True)]
+_NAMECASES += [(nb, ne, names, tw, NAMES5) for nb in range(4) for ne in range(4) if 1 <= nb + ne <= 3
+               for names in _it.product(range(5), repeat=nb + ne) for tw in (False, True)]
+_NAMECASES = _NAMECASES[_SH::_NSH]
 
 
 def h_distinct_names(case: int) -> bool:
@@ -158,9 +162,9 @@ def h_distinct_names(case: int) -> bool:
     # a pool with clashes: every variable is printed once (or twice) among the inputs; distinct variables must get distinct
     # printed names, the same variable the same name
     global LAST_DETAIL
-    n_bound, n_exist, names, twice = _NAMECASES[realize(case)]
-    bn = [NAMES[i] for i in names[:n_bound]]
-    en = [NAMES[i] for i in names[n_bound:]]
+    n_bound, n_exist, names, twice, pool = _NAMECASES[realize(case)]
+    bn = [pool[i] for i in names[:n_bound]]
+    en = [pool[i] for i in names[n_bound:]]
     with NoTracing():
         params = [TypeParam(i, nm, True, True) for i, nm in enumerate(bn)]
         bvars = [BoundTypeVar(nm, i, True, True) for i, nm in enumerate(bn)]
